@@ -460,17 +460,22 @@ def _validate_return_to(url: str, allowed_origins: frozenset[str] = frozenset())
         return ""
     if _has_browser_ambiguous_chars(url):
         return ""
-    parsed = urlparse(url)
+    try:
+        parsed = urlparse(url)
+        hostname = parsed.hostname or ""
+        port = parsed.port
+    except ValueError:
+        # Malformed authority: non-numeric or out-of-range port, bad IP literal.
+        return ""
     if parsed.scheme not in ("http", "https"):
         return ""
     if not parsed.netloc:
         return ""
     # localhost with any port is always allowed
-    hostname = parsed.hostname or ""
     if _is_localhost(hostname) and parsed.scheme == "http":
         return url
     # Check against allowlist (scheme + host + effective port, ignoring path)
-    target = (parsed.scheme, hostname, _effective_port(parsed.scheme, parsed.port))
+    target = (parsed.scheme, hostname, _effective_port(parsed.scheme, port))
     for allowed in allowed_origins:
         try:
             entry = urlparse(allowed)
